@@ -527,7 +527,7 @@ def random_cfg(rng, max_seed, size='small'):
     return finish(cfg)
 
 
-def structured_cases(tier):
+def structured_cases(tier, systematic_seeds=None):
     """Seed-independent part: hand-written scenarios x seeds x targets, then the systematic family."""
     nseed = 8 if tier == 'quick' else 40
     for label, part, targets in scenarios():
@@ -538,7 +538,7 @@ def structured_cases(tier):
                 c['target'] = target
                 c['label'] = label
                 yield finish(c)
-    yield from systematic(range(2) if tier == 'quick' else range(6))
+    yield from systematic(systematic_seeds or (range(2) if tier == 'quick' else range(6)))
 
 
 def random_cases(tier, seed, n):
